@@ -481,6 +481,17 @@ func c11Cases(c *Check) []c11Case {
 			add(fmt.Sprintf("twocomments/%d/%d", i, j), []gtok{mkIdent("p"), mkIdent("x"), mkOp("="), mkNum("1"), mkIdent("q"), mkNL(false), mkIdent("r")}, []string{" " + m1 + " ", " ", " ", " " + m2 + " ", "", ""})
 		}
 	}
+	// comment bodies made of the delimiters' own characters, quotes and line breaks
+	for bi, body := range []string{"", "/", "//", "*", "**", "/ banner /", "/ x", "x /", "* /", "/*", "/* /*", "\"", "`", "'", "\n/", "/\n", "\n", "*\n*", "// x\n", " / * ", "/**", "a*b/c"} {
+		cm := "/*" + body + "*/"
+		for si, sp := range []string{"", " ", "\n"} {
+			if sp == "\n" {
+				add(fmt.Sprintf("commentbody/%d/own-line", bi), []gtok{mkIdent("p"), mkNL(false), mkIdent("q"), mkOp("="), mkNum("1")}, []string{"", cm + " ", " ", " "})
+				continue
+			}
+			add(fmt.Sprintf("commentbody/%d/sep%d", bi, si), []gtok{mkIdent("p"), mkOp("+"), mkIdent("q"), mkNL(false), mkIdent("r")}, []string{sp + cm + sp, sp + cm + sp, " " + cm, ""})
+		}
+	}
 	for _, raw := range []string{"one\ntwo", "\n", "a\n\n\nb", "l1\r\nl2", "x\n  y\n"} {
 		for _, after := range []gtok{mkIdent("z"), mkOp("+"), mkStr("s", 0), mkNum("4")} {
 			add(fmt.Sprintf("after-multiline-raw/%s/%s", hexKey(raw), classOf(after)), []gtok{mkIdent("v"), mkOp("="), mkRaw(raw), after, mkNL(false), mkIdent("n"), mkOp(":="), mkNum("2")}, []string{" ", " ", " ", "", "", " ", " "})
@@ -582,7 +593,7 @@ func checkC11(c *Check) {
 	errTexts := map[string]string{
 		"unterminated-dq": `x := "abc`, "unterminated-dq-newline": "x := \"abc\ny := 1\n", "unterminated-raw": "x := `abc\n", "unterminated-escape": `x := "abc\"`,
 		"hash": "x := 1 # c", "dollar": "x := $y", "question": "x ? y", "tilde": "~x", "backslash": `x \ y`, "single-quote": "x := 'a'", "nul": "x\x00y", "high-byte": "x \x80 y",
-		"caret": "x ^ y", "lone-amp": "x & y", "unterminated-block-comment": "x /* never closed", "utf8-identifier": "é := 1",
+		"caret": "x ^ y", "lone-amp": "x & y", "unterminated-block-comment": "x /* never closed", "unterminated-comment-slash": "/*/", "unterminated-comment-slash-2": "x /*/ y", "unterminated-comment-star": "x /** y", "unterminated-comment-star-slash-apart": "x /* * / y", "utf8-identifier": "é := 1",
 	}
 	for k, txt := range errTexts {
 		c.Eval(txt, true)
